@@ -23,9 +23,9 @@ Definition sym_is (a : atom) (s : string) : bool := str_eqb (a_sym a) (s2l s).
 Definition normal_valences (sym : str) : list nat :=
   if str_eqb sym (s2l "B") then [3] else
   if str_eqb sym (s2l "C") then [4] else
-  if str_eqb sym (s2l "N") then [3; 5] else
+  if str_eqb sym (s2l "N") then [3] else
   if str_eqb sym (s2l "O") then [2] else
-  if str_eqb sym (s2l "P") then [3; 5] else
+  if str_eqb sym (s2l "P") then [3; 5; 7] else
   if str_eqb sym (s2l "S") then [2; 4; 6] else
   if str_eqb sym (s2l "F") then [1] else
   if str_eqb sym (s2l "Cl") then [1] else
